@@ -3,7 +3,8 @@ From Coq Require Import List NArith ZArith Lia.
 From YV Require Import Base.Wire Model.CodedCpp Model.Binary.
 From YV Require Import Proofs.BinaryProofs Proofs.ProtocolProofs Proofs.CodedCppOut Proofs.CodedCppIn Proofs.Truncation.
 From YV Require Import Proofs.CodedCppRoundtrip.
-From YV Require Import Model.CodedPy Proofs.CodedPyIn Proofs.CodedPyOut Proofs.CodedPyRoundtrip Model.PyTyped Proofs.PyTypedProofs.
+From YV Require Import Model.CodedPy Proofs.CodedPyIn Proofs.CodedPyOut Proofs.CodedPyRoundtrip Model.PyTyped Proofs.PyTypedProofs
+  Model.PyReadProg Proofs.PyReadProofs Model.PyTypedRead Proofs.PyTypedReadProofs.
 Import ListNotations.
 
 (* every type constructor, every well-typed value, any following bytes *)
@@ -96,6 +97,41 @@ Theorem C01_py_stream_step_bytes : forall t bs,
   concat (map pwbytes (py_stream_ops t bs)) = concat (map (py_block t) (filter nonempty (blocks_of bs))) ++ [0%N].
 Proof. exact py_stream_bytes. Qed.
 Print Assumptions C01_py_stream_step_bytes.
+
+(* Reader programs (what a typed reader does: issue read operations, continue with what they return) behave over the buffered
+   Python stream exactly as over the byte list, for every buffer size and every program *)
+Theorem C01_py_reader_programs_refine : forall A bufsize (p : rprog A) s, (0 < bufsize)%nat -> PInv bufsize s -> prog_ok bufsize p ->
+  match arun_p p (ppending s) with
+  | PVal a r => exists s', mrun_p bufsize p s = MVal a s' /\ PInv bufsize s' /\ ppending s' = r
+  | PEnd => mrun_p bufsize p s = MEnd PyEof \/ mrun_p bufsize p s = MEnd (PyFault BufferErr)
+  | PBad => mrun_p bufsize p s = MBad
+  end.
+Proof. exact prog_refines. Qed.
+Print Assumptions C01_py_reader_programs_refine.
+
+(* the typed Python reader (Model.PyTypedRead.py_read: the calls the serializer classes make, compared call by call and value by
+   value with a spying CodedInputStream on every run) reads back the Python encoding of every well-typed value *)
+Theorem C01_py_read_roundtrip : forall t v rest, has_type t v = true ->
+  arun_p (py_read t) (enc_py t v ++ rest) = PVal v rest.
+Proof. exact py_read_roundtrip. Qed.
+Print Assumptions C01_py_read_roundtrip.
+
+(* END TO END for generated Python: typed writer -> CodedOutputStream (any buffer size) -> bytes -> CodedInputStream (any
+   buffer size >= 16) -> typed reader returns exactly the value written and leaves exactly what followed it *)
+Theorem C01_py_typed_roundtrip : forall b1 b2 t v rest chunks, (16 <= b2)%nat -> has_type t v = true ->
+  pwfinish b1 (py_wops t v) = PWOk chunks ->
+  exists s', mrun_p b2 (py_read t) (pin_init (concat chunks ++ rest)) = MVal v s' /\ ppending s' = rest.
+Proof. exact py_typed_roundtrip. Qed.
+Print Assumptions C01_py_typed_roundtrip.
+
+(* a whole protocol: header and every step (streams written in any grouping of lists and iterables), written by the typed
+   Python writer, is read back by the typed Python reader - values in order, stream items in order *)
+Theorem C01_py_protocol_roundtrip : forall schema steps fuel rest,
+  forallb pstep_typed steps = true -> Forall (fun s => (pstep_blocks s < fuel)%nat) steps ->
+  arun_p (py_read_protocol fuel schema (map step_of steps)) (obytes (py_protocol_ops schema steps) ++ rest)
+  = PVal (map result_of steps) rest.
+Proof. exact py_protocol_roundtrip. Qed.
+Print Assumptions C01_py_protocol_roundtrip.
 
 (* conformance with docs/reference/binary.md: identical except for 8-bit integers ... *)
 Theorem C01_doc_conformance_guarded : forall t, no_int8 t = true -> forall v, enc_doc t v = enc t v.
